@@ -229,6 +229,31 @@ def rod_stub(K, E, planar):
     return rod, rots
 
 
+def _real_surface_grid(cls, E):
+    """real CosseratRodSurfaceForcingGrid.__init__ on a concrete rod (real numpy in its module)"""
+    import importlib
+    m = importlib.import_module(CR_MOD)
+    el = [importlib.import_module(x) for x in EL_MODS]
+    saved = [(mod, mod.np) for mod in [m] + el]
+    try:
+        for mod, _ in saved:
+            mod.np = np
+        rod = Body()
+        rod.n_elems = E
+        rod.position_collection = np.array([[0.0, 0.0, 0.0], [0.0, 0.0, 0.0], [0.0, 1.0, 2.0]])
+        rod.velocity_collection = np.zeros((3, E + 1))
+        rod.omega_collection = np.zeros((3, E))
+        rod.director_collection = np.repeat(np.eye(3).reshape(3, 3, 1), E, axis=2)
+        rod.mass = np.ones(E + 1)
+        rod.radius = np.array([1.0, 0.3])
+        rod.lengths = np.ones(E)
+        rod.tangents = np.repeat(np.array([[0.0], [0.0], [1.0]]), E, axis=1)
+        return cls(grid_dim=3, cosserat_rod=rod, surface_grid_density_for_largest_element=3, with_cap=False)
+    finally:
+        for mod, v in saved:
+            mod.np = v
+
+
 def reduce_all(rots, expr):
     e = S_(expr)
     for r in rots:
@@ -300,7 +325,16 @@ def cosserat_rod_forcing_grids(K, kind, dim):
                          grid_point_radius=objnp.fresh("stale_gr", (N,)), grid_point_omega=objnp.fresh("stale_gw", (3, N)),
                          lag_grid_torque_field=objnp.fresh("stale_tq", (3, N)))
         attrs.update(num_lag_nodes=N, position_field=objnp.fresh("stale_pos", (dim, N)), velocity_field=objnp.fresh("stale_vel", (dim, N)))
-        g = bypass_init(cls, **attrs)
+        if kind == "surface":
+            # the REAL constructor runs on a concrete tapered rod that produces this layout (3 + 1 markers); every
+            # attribute it creates is kept, then the state it cached is replaced by symbols (DESIGN appendix B)
+            g = _real_surface_grid(cls, E)
+            ok_layout = (g.num_lag_nodes == N and list(g.start_idx) == [0, 3] and list(g.end_idx) == [3, 4])
+            K.ensures("real_constructor_yields_the_representative_layout", ok_layout, props=("C08", "C09"))
+            for k_, v_ in attrs.items():
+                setattr(g, k_, v_)
+        else:
+            g = bypass_init(cls, **attrs)
         g.compute_lag_grid_position_field()
         g.compute_lag_grid_velocity_field()
         F = sym_array(K, "lag_grid_forcing_field", (dim, N))
